@@ -764,6 +764,10 @@ fn execute(args: &Opts, input: String, filename: Option<PathBuf>) -> Result<Vec<
 	let fields: Vec<(String,String)> = vec![];
 	let fmt_lines: Vec<Vec<(String,String)>> = vec![];
 
+	// Registers live in a thread-local: start every unit of work (line, file) with empty ones,
+	// so that units scheduled onto the same worker thread cannot see each other's registers.
+	register::REGISTERS.with_borrow_mut(|regs| *regs = register::Registers::new());
+
 	let mut vicut = ViCut::new(input, 0)?;
 	let basename = filename.clone()
 		.map(|s| s.file_name().unwrap_or_default().to_string_lossy().to_string())
